@@ -22,6 +22,17 @@ def gen():
     vlib.write_if_changed(os.path.join(vlib.COQ, "Gen", "Gen_C13.v"), c13_fwd.generate(vlib.REPO))
 
 
+def oint(v):
+    """observed value -> Coq out term; a value of an unexpected type becomes a term the model cannot match (a disagreement, not a decode crash)"""
+    if isinstance(v, bool) or isinstance(v, int):
+        return "OInt (%d)" % v
+    if isinstance(v, str):
+        return "OStr %s" % cqs(v)
+    if isinstance(v, dict) and "buf" in v:
+        return "OPad %s (%d)" % (cqs(v["buf"][:CAP]), v.get("len", -1))
+    return "OVoid"
+
+
 def cqs(s):
     return '"' + s.replace('"', '""') + '"'
 
@@ -51,7 +62,7 @@ def gen_sequence(rng, n):
             continue
         if k < 0.2:
             i = pick_id()
-            seq.append(("Destroy (%d)" % i, ["destroy", i], lambda r: "OInt (%d)" % r["r"]))
+            seq.append(("Destroy (%d)" % i, ["destroy", i], lambda r: oint(r["r"])))
             if i in live:
                 live.remove(i)
                 loaded.discard(i)
@@ -72,7 +83,7 @@ def gen_sequence(rng, n):
                 text = "".join("SELECTED_OUTPUT %d\n -reset false\n -pH true\n" % n for n in ns) + "SOLUTION 1\nEND\n"
                 call = "%s (%d) (RunDefines [%s])%s" % ({"C": "CCall", "M": "MCall", "F": "FCall"}[b], i, "; ".join(str(n) for n in ns), " %d" % CAP if b == "F" else "")
                 op = {"C": ["c", "RunString", i, text], "M": ["m", "RunString", i, text], "F": ["f", "RunStringF", i, text]}[b]
-            seq.append((call, op, lambda r: "OInt (%d)" % r["r"]))
+            seq.append((call, op, lambda r: oint(r["r"])))
             continue
         if kind < 0.3:
             s, fn = rng.choice(SW)
@@ -119,7 +130,7 @@ def gen_sequence(rng, n):
         if b == "C":
             call = "CCall (%d) (%s)" % (i, ic)
             op = ["c", name, i] + ([] if arg in (None, "strget") else [arg[1] if isinstance(arg, tuple) else arg])
-            dec = (lambda r: "OStr %s" % cqs(r["r"])) if arg == "strget" else (lambda r: "OInt (%d)" % r["r"])
+            dec = (lambda r: "OStr %s" % cqs(r["r"])) if arg == "strget" else (lambda r: oint(r["r"]))
         elif b == "M":
             call = "MCall (%d) (%s)" % (i, ic)
             op = ["m", name, i] + ([] if arg in (None, "strget") else [arg[1] if isinstance(arg, tuple) else arg])
@@ -140,7 +151,7 @@ def gen_sequence(rng, n):
                 dec = lambda r: "OPad %s (%d)" % (cqs(r["r"]["buf"][:CAP]), r["r"]["len"])
             else:
                 op = ["f", name + "F", i] + ([] if arg is None else [arg[1] if isinstance(arg, tuple) else arg])
-                dec = lambda r: "OInt (%d)" % r["r"]
+                dec = lambda r: oint(r["r"])
         seq.append((call, op, dec))
     return seq
 
@@ -439,15 +450,15 @@ def gen_fixed():
     s = []
     s.append(("Create", ["create"], lambda r: "OInt %d" % r["id"]))
     s.append(("Create", ["create"], lambda r: "OInt %d" % r["id"]))
-    s.append(("Destroy (0)", ["destroy", 0], lambda r: "OInt (%d)" % r["r"]))
-    s.append(("Destroy (0)", ["destroy", 0], lambda r: "OInt (%d)" % r["r"]))
-    s.append(("Destroy (-1)", ["destroy", -1], lambda r: "OInt (%d)" % r["r"]))
-    s.append(("CCall (0) (SetSw OutputFile true)", ["c", "SetOutputFileOn", 0, 1], lambda r: "OInt (%d)" % r["r"]))
+    s.append(("Destroy (0)", ["destroy", 0], lambda r: oint(r["r"])))
+    s.append(("Destroy (0)", ["destroy", 0], lambda r: oint(r["r"])))
+    s.append(("Destroy (-1)", ["destroy", -1], lambda r: oint(r["r"])))
+    s.append(("CCall (0) (SetSw OutputFile true)", ["c", "SetOutputFileOn", 0, 1], lambda r: oint(r["r"])))
     s.append(("CCall (0) (GetName NOutput)", ["c", "GetOutputFileName", 0], lambda r: "OStr %s" % cqs(r["r"])))
     s.append(("Create", ["create"], lambda r: "OInt %d" % r["id"]))
     s.append(("FCall (2) (GetName NDump) %d" % CAP, ["f", "GetDumpFileNameF", 2, CAP], lambda r: "OPad %s (%d)" % (cqs(r["r"]["buf"][:CAP]), r["r"]["len"])))
-    s.append(("CCall (1) (SetName NLog (Some %s))" % cqs("q" * 70), ["c", "SetLogFileName", 1, "q" * 70], lambda r: "OInt (%d)" % r["r"]))
+    s.append(("CCall (1) (SetName NLog (Some %s))" % cqs("q" * 70), ["c", "SetLogFileName", 1, "q" * 70], lambda r: oint(r["r"])))
     s.append(("FCall (1) (GetName NLog) %d" % CAP, ["f", "GetLogFileNameF", 1, CAP], lambda r: "OPad %s (%d)" % (cqs(r["r"]["buf"][:CAP]), r["r"]["len"])))
-    s.append(("CCall (1) (SetCur (-3))", ["c", "SetCurrentSelectedOutputUserNumber", 1, -3], lambda r: "OInt (%d)" % r["r"]))
-    s.append(("CCall (1) GetCur", ["c", "GetCurrentSelectedOutputUserNumber", 1], lambda r: "OInt (%d)" % r["r"]))
+    s.append(("CCall (1) (SetCur (-3))", ["c", "SetCurrentSelectedOutputUserNumber", 1, -3], lambda r: oint(r["r"])))
+    s.append(("CCall (1) GetCur", ["c", "GetCurrentSelectedOutputUserNumber", 1], lambda r: oint(r["r"])))
     return s
